@@ -69,6 +69,22 @@ func c14Tree(v, y string) core.Tree {
 	return t
 }
 
+// c14Layouts: additional directory entries. Extra values are templates (filled like the other
+// target files: they must show the new version), Fixed values must stay exactly as they are.
+var c14Layouts = []struct {
+	Name  string
+	Extra core.Tree
+	Fixed core.Tree
+}{
+	{"symlink to a file outside the targets, first in rules/", nil, core.Tree{"LICENSE": "Apache\n", "rules/AAA-LICENSE": core.LinkPrefix + "../LICENSE"}},
+	{"crs-setup.conf linked to the example file", nil, core.Tree{"crs-setup.conf": core.LinkPrefix + "crs-setup.conf.example"}},
+	{"dangling symlink and link to a directory", nil, core.Tree{"rules/AAA-dangling": core.LinkPrefix + "nowhere", "AAA-plugins": core.LinkPrefix + "plugins", "plugins/AAA-up": core.LinkPrefix + ".."}},
+	{"hidden directories and files", core.Tree{".hidden/h.conf": c14Markers, "rules/.dot.conf": c14Legacy, "rules/.d/x.example": c14Markers}, core.Tree{"rules/.gitkeep": "", ".git/HEAD": "ref: refs/heads/main\n", "rules/.AAA": "# OWASP CRS ver.4.0.0\n"}},
+	{"empty and deep directories", core.Tree{"a/b/c/d/e/f/g/h/deep.conf": c14Markers, "rules/sub/REQUEST-1.conf": c14Legacy}, core.Tree{"rules/AAA-empty/": "", "a/b/c/empty/": "", "rules/000.txt": "# OWASP CRS ver.4.0.0\n"}},
+	{"names with blanks and non-ASCII", core.Tree{"rules/with blank.conf": c14Markers, "rules/ünï.conf": c14Legacy, "my plugins/p q.example": c14Markers}, core.Tree{"rules/with blank.txt": "# OWASP CRS ver.4.0.0\n"}},
+	{"target names in odd places", core.Tree{"rules/a.conf.example": c14Markers, "rules/x.example.conf": c14Markers, "tests/t.conf": c14Legacy, "regex-assembly/r.conf": c14Markers}, core.Tree{"rules/conf.d/readme": "# OWASP CRS ver.4.0.0\n", "rules/a.conf.d/readme": "# OWASP CRS ver.4.0.0\n"}},
+}
+
 type c14Fail struct {
 	Clause  string   `json:"clause"`
 	History []string `json:"history"`
@@ -223,8 +239,75 @@ func C14(r *core.Run) {
 		}
 		emit(o)
 	})
+	// directory layouts: entries that are neither regular files nor plain directories, hidden
+	// directories, deep nesting. One and two steps from the pristine tree for every layout.
+	type layRes struct {
+		Runs  int
+		Fails []c14Fail
+	}
+	lays, d2 := core.Parallel(r, "layout", in{dir, depth}, r.Workers, func(in in, shard, n int, emit func(layRes)) {
+		var o layRes
+		sb := filepath.Join(in.Dir, fmt.Sprint("l", shard))
+		idx := 0
+		for li, lay := range c14Layouts {
+			for _, hist := range [][]step{{{"4.1.0", "2031"}}, {{"4.1.0-rc1", "2025"}, {"v4.2.0", "2031"}}} {
+				if idx++; idx%n != shard {
+					continue
+				}
+				build := func(v, y string) core.Tree {
+					t := c14Tree(v, y)
+					for k, e := range lay.Extra {
+						t[k] = c14Fill(e, v, y)
+					}
+					for k, e := range lay.Fixed {
+						t[k] = e
+					}
+					return t
+				}
+				os.RemoveAll(sb)
+				build("4.0.0", "2024").Materialise(sb)
+				var names []string
+				ok := true
+				for _, s := range hist {
+					names = append(names, s.V+"/"+s.Y)
+					r.Inflight(fmt.Sprint(lay.Name, names))
+					res := core.RunCLI(r.Crs, sb, "", nil, "-d", sb, "chore", "update-copyright", "-v", s.V, "-y", s.Y)
+					o.Runs++
+					if res.Exit != 0 {
+						o.Fails = append(o.Fails, c14Fail{"layout:" + lay.Name, names, fmt.Sprintf("exit %d: %s", res.Exit, tailStr(res.Stderr, 200)), nil})
+						ok = false
+						break
+					}
+				}
+				if !ok {
+					continue
+				}
+				last := hist[len(hist)-1]
+				want := core.Tree{}
+				for k, v := range build(last.V, last.Y) {
+					if strings.HasSuffix(k, "/") {
+						continue
+					}
+					if (strings.HasSuffix(k, ".conf") || strings.HasSuffix(k, ".example")) && !strings.HasSuffix(v, "\n") && !strings.HasPrefix(v, core.LinkPrefix) {
+						v += "\n"
+					}
+					want[k] = v
+				}
+				if got := core.ReadTree(sb); treeHash(got) != treeHash(want) {
+					o.Fails = append(o.Fails, c14Fail{"layout:" + lay.Name, names, fmt.Sprintf("layout %d (%s): files differ from the template filled with the last version and year", li, lay.Name), diffTrees(want, got)})
+				}
+			}
+		}
+		emit(o)
+	})
+	deaths = append(deaths, d2...)
 	if r.IsWorker() {
 		return
+	}
+	layRuns := 0
+	for _, l := range lays {
+		layRuns += l.Runs
+		outs = append(outs, out{Transitions: l.Runs, Fails: l.Fails})
 	}
 	for _, d := range deaths {
 		r.HarnessError("worker %s/%d %s on %q: %s", d.Stage, d.Shard, d.Kind, d.Case, tailStr(d.Log, 300))
@@ -265,7 +348,8 @@ func C14(r *core.Run) {
 	r.Cov["traces_validated_against_impl"] = tot.Transitions
 	r.Cov["distinct_nontrivial"] = tot.Accepted
 	r.Cov["exhaustive"] = len(deaths) == 0
-	r.Cov["bound"] = map[string]any{"versions": c14Versions, "rejected": c14Rejected, "years": c14Years, "history_length": depth, "files": 7, "decoys": 6}
+	r.Cov["layout_runs"] = layRuns
+	r.Cov["bound"] = map[string]any{"layouts": len(c14Layouts), "versions": c14Versions, "rejected": c14Rejected, "years": c14Years, "history_length": depth, "files": 7, "decoys": 6}
 	r.Cov["rule"] = "explicit-state BFS over invocation histories with the real CLI: from the pristine tree every (version, year) step, from every distinct reached tree again every step, up to the history length; after every step all .conf/.example files must equal the template filled with that step's values (other text and decoy files byte-identical), repeating the step must change nothing; rejected versions exit non-zero and leave the tree; states = distinct trees expanded, transitions = CLI executions"
 	r.Cov["samples"] = []any{[]string{"4.1.0-RC1/2025", "4.0.0/2031"}, []string{"v4.2.0/2031", "4.4/2025", "10.20.30-dev-1/2031"}}
 }
